@@ -55,7 +55,7 @@ def gen_cases(ctx):
   rng = ctx.rng
   quick = ctx.tier == "quick"
   n_each = 45 if quick else 220
-  hk = ["normal", "int", "lowrank", "zero_mixed", "scale"]
+  hk = ["normal", "int", "lowrank", "zero_mixed", "scale", "small", "large"]
   bs = [1.0, 0.5, 0.9, 0.999]
   ds_cases, tf_cases, oco_cases = [], [], []
   for i in range(n_each):
@@ -153,7 +153,7 @@ def report(ctx, results):
 def run(ctx):
   ctx.cov["rule"] = (
       "gradient histories (kinds: normal / 4-bit integer / rank<=k / with zero steps / "
-      "scale-varying 1e-3..1e3) x dimension x rank k x decay in {1,.5,.9,.999} x padding x ridge, "
+      "scale-varying 1e-3..1e3 / uniformly tiny 1e-6..1e-4 / uniformly huge 1e4..1e6) x dimension x rank k x decay in {1,.5,.9,.999} x padding x ridge, "
       "for Distributed Shampoo _fd_update_root, Tearfree Sketchy _update_axis and the OCO "
       "_fd_update_fn; distinct by generator parameters, non-trivial when some spectral mass "
       "escapes the sketch (s[k] > 0 at some step)")
